@@ -134,6 +134,11 @@ theorem grouped_import_is_one_line {inp : List Rune} (hg : Good inp) (l : L) (h 
     ∀ t ∈ (lexImports l).1.out, t.typ = .import → countNl t.lit = 0 :=
   imports_token_one_line hg l h ho (by decide)
 
+/-- … and so is a single `import "x"` line (the text after the keyword, up to the end of the line) -/
+theorem single_import_is_one_line {inp : List Rune} (hg : Good inp) (l : L) (h : SInv inp l) (ho : l.out = []) :
+    ∀ t ∈ (lexImportStart l).1.out, t.typ = .import → countNl t.lit = 0 :=
+  importStart_token_one_line hg l h ho (by decide)
+
 /-- **`@goht` is the keyword only when a blank follows it** — the lexer enters a template declaration exactly
 when that word is `@goht` and the next character is a blank; every other line that starts with `@` is Go code. -/
 theorem template_keyword_needs_blank (l : L) :
